@@ -249,6 +249,7 @@ pub struct Ctx {
     pub extra: BTreeMap<String, Value>,
     pub started: Instant,
     pub scale: f64,
+    pub shrink_iters: u32,
 }
 
 fn seed32(seed: u64, id: &str, sub: &str, shard: usize) -> [u8; 32] {
@@ -298,6 +299,7 @@ impl Ctx {
                 .ok()
                 .and_then(|s| s.parse().ok())
                 .unwrap_or(1.0),
+            shrink_iters: 300,
         }
     }
 
@@ -408,6 +410,7 @@ impl Ctx {
         let per = (cases as usize).div_ceil(shards) as u32;
         let id = self.id.clone();
         let seed = self.seed;
+        let shrink_iters = self.shrink_iters;
         let results: Vec<(Stats, Option<(C, String)>)> = std::thread::scope(|scope| {
             let handles: Vec<_> = (0..shards)
                 .map(|shard| {
@@ -418,7 +421,8 @@ impl Ctx {
                         let config = Config {
                             cases: per,
                             failure_persistence: None,
-                            max_shrink_iters: 400,
+                            max_shrink_iters: shrink_iters,
+                            verbose: 0,
                             max_global_rejects: 65536,
                             ..Config::default()
                         };
